@@ -20,8 +20,9 @@ open Spec
 
 /-! ## 0. the tables of the current source are the ones the proofs are about -/
 
-/-- `router._mtypes`, the tuple of `Rule.add`, the keys `MessageRouter.addMatch` stores each parameter
-under, how the type constraint is translated, whether the client escapes apostrophes (all fields of
+/-- (All tables are derived by probing the code of the tree under test - see tools/tables/c12_route.py - so they
+describe behaviour, not the private layout of `Rule` objects.)  `router._mtypes`, the message attributes
+compared by `Rule.match`, what `MessageRouter.addMatch` evaluates each parameter as, how the type constraint is translated, whether the client escapes apostrophes (all fields of
 `Tables`), the keys of the rule text written by
 `DBusClientConnection.addMatch` with the variable written under each, the `kwargs` keys of
 `Bus.dbus_AddMatch`, the keyword arguments of the `addMatch` call in `notifyOnSignal`.  All lists are
@@ -34,10 +35,10 @@ theorem tables_current :
         [("type".toList, "mtype".toList), ("sender".toList, "sender".toList), ("interface".toList, "interface".toList),
          ("member".toList, "member".toList), ("path".toList, "path".toList),
          ("path_namespace".toList, "path_namespace".toList), ("destination".toList, "destination".toList),
-         ("arg%d".toList, "v".toList), ("arg%dpath".toList, "v".toList), ("arg0namespace".toList, "arg0namespace".toList)]
+         ("arg%d".toList, "arg".toList), ("arg%dpath".toList, "arg_path".toList), ("arg0namespace".toList, "arg0namespace".toList)]
     ∧ Gen.Route.notifyKwargs =
-        [("mtype".toList, "'signal'".toList), ("interface".toList, "iface.name".toList),
-         ("member".toList, "signalName".toList), ("path".toList, "self.objectPath".toList)] := by decide
+        [("mtype".toList, "'signal'".toList), ("interface".toList, "interfaceName".toList),
+         ("member".toList, "signalName".toList), ("path".toList, "objectPath".toList)] := by decide
 
 theorem gen_eq_cur : Tables.gen = Tables.cur := tables_current.1
 
